@@ -356,10 +356,13 @@ class MemoryLogger(object):
             self._failed_validations.append(
                 "{}: {}".format(e, "".join(traceback.format_stack(frame[0])))
             )
-        self.messages.append(dictionary)
+        # Store a copy: the caller's dictionary must not change when
+        # validate() later replaces fields with their serialized form.
+        stored = dictionary.copy()
+        self.messages.append(stored)
         self.serializers.append(serializer)
         if serializer is TRACEBACK_MESSAGE._serializer:
-            self.tracebackMessages.append(dictionary)
+            self.tracebackMessages.append(stored)
 
     def _validate_message(self, dictionary, serializer):
         """Validate an individual message.
